@@ -1,6 +1,7 @@
 import Infretis.Model.Proto
 import Infretis.Model.Moves
 import Infretis.Model.MovesRun
+import Infretis.Model.MovesTime
 open Infretis Infretis.Proto Infretis.Moves Infretis.Engine
 
 def showStatus : Status → String
@@ -143,7 +144,60 @@ def showMdOne (o : MdOneOut) : String :=
     | none => "-"
   s!"ok {showStatus o.status} {b01 o.replaced} {o.trialLen} {o.trialMin} {o.trialMax} | {showList toString o.live} | {w}"
 
+def showTFrame (f : TFrame) : String := s!"{f.op}:{f.traj}:{f.t}:{f.v}:{b01 f.rev}"
+
+def showFrames (fs : List TFrame) : String := s!"{b01 (timeOrderedB fs)} | {showList showTFrame fs}"
+
+/-- "ordered in time" ops (model `Infretis/Model/MovesTime.lean`):
+    `wft v list(krevs 0/1) <wire-fencing input as for wf>`  → frames of the accepted path, or `none`
+    `shoott v krev <shoot input as for shoot>`              → frames of the pasted trial path, or `none`
+    `ordered list(op) list(traj) list(t) list(v) list(rev)` → the predicate `timeOrderedB` on given frames -/
+def handleTime (toks : List String) : Option String :=
+  match toks with
+  | "wft" :: v :: rest =>
+    match parseVariant? v, takeList parseNat? rest with
+    | some v, some (krevs, rest) =>
+      match parseWfIn rest with
+      | some i =>
+        match wireFencingT v i (krevs.map (fun n => n != 0)) [] with
+        | some fs => some s!"frames {showFrames fs}"
+        | none => some "none"
+      | none => some "bad-op"
+    | _, _ => some "bad-op"
+  | "shoott" :: v :: krev :: rest =>
+    match parseVariant? v, parseShootIn rest with
+    | some v, some i =>
+      match shootT v i (kickFrame i.kick 1 (krev = "1")) with
+      | some fs => some s!"frames {showFrames fs}"
+      | none => some "none"
+    | _, _ => some "bad-op"
+  | "ordered" :: rest =>
+    match takeList parseInt? rest with
+    | some (ops, rest) =>
+      match takeList parseNat? rest with
+      | some (trs, rest) =>
+        match takeList parseInt? rest with
+        | some (ts, rest) =>
+          match takeList parseInt? rest with
+          | some (vs, rest) =>
+            match takeList parseNat? rest with
+            | some (rs, []) =>
+              if ops.length = trs.length ∧ ops.length = ts.length ∧ ops.length = vs.length ∧ ops.length = rs.length then
+                let fs : List TFrame := (((ops.zip trs).zip ts).zip (vs.zip rs)).map
+                  (fun p => { op := p.1.1.1, traj := p.1.1.2, t := p.1.2, v := p.2.1, rev := p.2.2 != 0 })
+                some (b01 (timeOrderedB fs))
+              else some "bad-op"
+            | _ => some "bad-op"
+          | none => some "bad-op"
+        | none => some "bad-op"
+      | none => some "bad-op"
+    | none => some "bad-op"
+  | _ => none
+
 def handleExt (toks : List String) : Option String :=
+  match handleTime toks with
+  | some r => some r
+  | none =>
   match toks with
   | "outcome" :: v :: rest =>
     match parseVariant? v, parseShootIn rest with
